@@ -288,6 +288,7 @@ enum Ctor {
 #[derive(Clone, Copy, Debug, PartialEq, Eq)]
 enum SinkKind {
     Iovec,
+    IovecByRef,
     Hcobs,
 }
 
@@ -326,6 +327,15 @@ fn emit<'a, V: ToRoughTLV<'a>>(w: &MessageWrapper<'a, '_, V>, sink: SinkKind) ->
         SinkKind::Iovec => {
             let mut iov = OwningIovec::new();
             w.to_rough_tlv(&mut iov);
+            iov.flatten().map_err(|_| f11("sink-pending", "OwningIovec sink has a pending backpatch".into()))
+        }
+        SinkKind::IovecByRef => {
+            // through the blanket `impl ZeroCopySink for &mut T`
+            let mut iov = OwningIovec::new();
+            {
+                let mut by_ref = &mut iov;
+                w.to_rough_tlv(&mut by_ref);
+            }
             iov.flatten().map_err(|_| f11("sink-pending", "OwningIovec sink has a pending backpatch".into()))
         }
         SinkKind::Hcobs => {
@@ -612,7 +622,11 @@ pub fn run_c11(ctx: &mut Ctx) {
         let mut rng = Rng::for_case(ctx.args.seed, "tlv-c11", r);
         let kind = KINDS[rng.usize_below(KINDS.len())];
         let ctor = *rng.pick(&[Ctor::New, Ctor::FromSlice, Ctor::FromSorted]);
-        let sink = if rng.chance(1, 4) { SinkKind::Hcobs } else { SinkKind::Iovec };
+        let sink = match rng.below(8) {
+            0 | 1 => SinkKind::Hcobs,
+            2 => SinkKind::IovecByRef,
+            _ => SinkKind::Iovec,
+        };
         let n = if miri {
             rng.range(0, 5)
         } else if rng.chance(1, 40) && !matches!(kind, Kind::Nested2 | Kind::Nested3 | Kind::View) {
